@@ -13,7 +13,7 @@ import HypatiaModel.Spec.SetOpsSpec
     IDF(t)   = ln(1 + N / f(t))
 
     Okapi    score(D,Q) = Σ_{t ∈ Q, t in D}  f(D,t)·(k1+1) / (f(D,t) + k1·((1−b) + b·len(D)/E(len))) · IDF(t)
-             k1 = 1.2, b = 0.75
+             k1, b: the index's BM25 free parameters `K1`, `B` (1.2 and 0.75 unless overridden)
     cosine   score(D,Q) = Σ_{t ∈ Q, t in D}  w(D,t)/W(D) · IDF(t),   w(D,t) = 1 + ln f(D,t),
              W(D) = sqrt(Σ_{t in D} w(D,t)²)
 
@@ -23,7 +23,7 @@ the terms gets no score (`none`).  Nothing here refers to the model's functions.
 namespace Hyp.ScoreSpec
 open Hyp Hyp.Scalar
 abbrev Table := AMap Int (List Nat)
-variable {α : Type} [Scalar α]
+variable {α : Type} [Scalar α] [Score.Bm25 α]
 
 def N (T : Table) : Nat := T.length
 def df (T : Table) (t : Nat) : Nat := (T.filter (fun p => p.2.contains t)).length
@@ -31,8 +31,11 @@ def totalLen (T : Table) : Nat := (T.map (fun p => p.2.length)).foldl (· + ·) 
 def meanLen (T : Table) : α := nat (totalLen T) / nat (N T)
 def idf (T : Table) (t : Nat) : α := log (nat 1 + nat (N T) / nat (df T t))
 
-def k1 : α := nat 12 / nat 10
-def b : α := nat 3 / nat 4
+/-- the index's parameters (`Score.Bm25`; the documented formulas know one `K1`: wherever the
+specification is evaluated `kq = k1`) -/
+def k1 : α := Score.Bm25.k1
+def b : α := Score.Bm25.b
+def kq : α := Score.Bm25.kq
 
 /-- TF(D,t) of the Okapi docstring -/
 def okapiTF (T : Table) (ws : List Nat) (t : Nat) : α :=
@@ -78,7 +81,7 @@ def phraseScore (k : Score.Kind) (T : Table) (wids : List Nat) (d : Int) : Optio
 def queryWeight (k : Score.Kind) (T : Table) (terms : List Nat) : α :=
   let ts := terms.filter (fun t => 0 < df T t)
   match k with
-  | .okapi => (ts.map (fun t => idf T t * (k1 + nat 1))).foldl (· + ·) (nat 0)
+  | .okapi => (ts.map (fun t => idf T t * (kq + nat 1))).foldl (· + ·) (nat 0)
   | .cosine => sqrt ((ts.map (fun t => idf T t * idf T t)).foldl (· + ·) (nat 0))
 
 /-- the table a history leaves behind -/
